@@ -45,7 +45,7 @@ def cases(tier, seed):
             # a configured back-off far above anything afkak might think reasonable: f(n) is the caller's business
             out.append(dict(kind="enum", seed=seed * 31 + b, refuse=nref + 1, sync=bool(nref % 2), cut=["time", 0.0],
                             policy=[(16.0, 2.5), (31.0, 0.0), (7.0, 6.0), (61.0, 1.0)][nref]))
-    npat = {"quick": 160, "thorough": 4000}[tier]
+    npat = {"quick": 200, "thorough": 5000}[tier]
     out += [dict(kind="pattern", seed=seed * 1000037 + i) for i in range(npat)]
     return out
 
